@@ -191,6 +191,11 @@ def total(run, p, sh):
             from_query = _from_query(p, sh, f, names_in(x.slice))
             ch = gm.chain(x) or ()
             tested = any(g.kind == 'if' and g.pol and tab in ast.unparse(g.test) and ' in ' in ast.unparse(g.test) for g in ch)
+            if tested or not from_query:
+                run.ob('C08-TOTAL', '%s::%s::closed-table[ok:%s]' % (f.rel, f.short, norm(x)[:30]), True, '%s: %s' % (
+                    norm(x)[:40], 'tested first' if tested else 'the key does not come from a query result'), fn=f, node=x)
+                continue
+            # (numbered among the lookups of the function that are not total, so that other tables coming and going do not rename it)
             run.ob('C08-TOTAL', '%s::%s::closed-table[%d]' % (f.rel, f.short, k), tested or not from_query,
                    '%s: key comes from a query result and the table is %s' % (norm(x)[:40], 'tested first' if tested else 'not total (KeyError for any other type name)'),
                    fn=f, node=x)
